@@ -212,7 +212,13 @@ fn handle(req: &J) -> J {
     if req.get("info").is_some() {
         let table = class_table();
         let max = table.iter().map(|t| t.0).max().unwrap_or(0);
-        let map: Vec<J> = (0..=max + 2).map(|n| size_class(n).map_or(J::Null, |c| json!(c))).collect();
+        // information only (the verdict is the size sweep through the pool itself): never fatal
+        let map: Vec<J> = (0..=max + 2)
+            .map(|n| match guarded(|| size_class(n)) {
+                Ok(c) => c.map_or(J::Null, |c| json!(c)),
+                Err(p) => json!(p),
+            })
+            .collect();
         return json!({"st": "ok", "table": table.iter().map(|t| json!([t.0, t.1])).collect::<Vec<_>>(), "size_class": map,
                       "build": if cfg!(debug_assertions) { "debug" } else { "fast" }});
     }
